@@ -21,8 +21,9 @@ def main():
     pid = a.pid.upper()
     try:
         import TexSoup  # noqa
-        if not os.path.realpath(TexSoup.__file__).startswith('/repo/'):
-            core.machinery(pid, 'TexSoup imported from %s, not from /repo' % TexSoup.__file__)
+        repo = os.path.realpath(os.environ.get('VERIF_REPO', '/repo'))
+        if not os.path.realpath(TexSoup.__file__).startswith(repo + '/'):
+            core.machinery(pid, 'TexSoup imported from %s, not from %s' % (TexSoup.__file__, repo))
         mod = importlib.import_module('harness.props.' + pid.lower())
     except ImportError as e:
         core.machinery(pid, 'cannot import: %s' % e)
